@@ -42,7 +42,13 @@ Definition node0 (w:bool) (src t nsl:Z) : rnode :=
 Definition pay (n:nat) : list Z := map (fun i => (Z.of_nat i * 7 + 3) mod 256) (seq 0 n).
 Definition tpm (pgn dst:Z) (p:list Z) : msg := {| m_pri := 6; m_pgn := pgn; m_src := 0; m_dst := dst; m_data := p; m_tp := true |}.
 
-Local Ltac conc := vm_compute; repeat apply conj; try reflexivity; try discriminate; try (let X := fresh in intro X; discriminate X); try (left; reflexivity); try (right; reflexivity).
+Local Ltac conc := vm_compute; repeat apply conj;
+  lazymatch goal with
+  | |- _ = _ => reflexivity
+  | |- _ \/ _ => first [left; reflexivity | right; reflexivity]
+  | |- _ -> False => let X := fresh in intro X; discriminate X
+  | |- forall j, _ => intros; exfalso; lia
+  end.
 
 Lemma node0_ready w src t nsl : 0 <= src <= 251 -> tp_ready (rn (node0 w src t nsl)) 0.
 Proof.
@@ -66,9 +72,63 @@ Proof.
   assert (P: tp_pending w_a1 0 {| m_pri := 6; m_pgn := 130816; m_src := 22; m_dst := 50; m_data := pay 20; m_tp := true |} 0).
   { unfold tp_pending, tp_ready. conc. }
   specialize (H P ltac:(discriminate)).
-  assert (A: addressed w_a1 22 0) by conc.
+  assert (A: addressed w_a1 22 0) by (unfold addressed; split; [conc|split; [conc|split; [conc|intros j Hj; lia]]]).
   specialize (H A ltac:(lia) ltac:(cbn; discriminate)).
   vm_compute in H. destruct H as [H _]. discriminate H.
 Qed.
 Print Assumptions tp_foreign_cts_refuted.
 
+
+(* ================= 8s: the receive session nobody ends ================= *)
+(* station 50 announces 20 bytes of PGN 130816 to device 22, gives up, and two seconds later transfers 20 bytes of PGN 130817: the library
+   acknowledges and delivers them as PGN 130816 *)
+Lemma pay_bytes n : bytes_ok (pay n).
+Proof. unfold bytes_ok, pay. apply Forall_forall. intros b Hb. apply in_map_iff in Hb. destruct Hb as (j & <- & _). apply Z.mod_pos_bound. reflexivity. Qed.
+
+Theorem tp_later_transfer_refuted : ~ tp_later_transfer_stmt.
+Proof.
+  intros H.
+  specialize (H gf_none (node0 true 22 5000 5) 50 22 130816 130817 20 (pay 20) 0 2000
+                (node0_ready true 22 5000 5 ltac:(lia)) (node0_addressed true 22 5000 5 ltac:(lia))).
+  assert (F: Forall (fun s => s_free s = true) (r_slots (node0 true 22 5000 5))) by (repeat constructor).
+  assert (L: 9 <= Z.of_nat (length (pay 20)) <= 223) by (vm_compute; split; intro X; discriminate X).
+  specialize (H F ltac:(vm_compute; intro X; discriminate X) eq_refl ltac:(lia) ltac:(discriminate) ltac:(lia) L (pay_bytes 20) ltac:(lia)).
+  cbv zeta in H.
+  specialize (H {| m_pri := 7; m_pgn := 130816; m_src := 50; m_dst := 22; m_data := pay 20; m_tp := true |}).
+  match type of H with ?P -> _ => assert (I: P) by (vm_compute; repeat (first [left; reflexivity | right])) end.
+  destruct (H I eq_refl) as [E _]. discriminate E.
+Qed.
+Print Assumptions tp_later_transfer_refuted.
+
+(* ================= library to library: every length, one byte pattern (the general statement is not yet proved) ================= *)
+Fixpoint list_eqb (a b:list Z) : bool := match a, b with [] , [] => true | x :: a', y :: b' => (x =? y) && list_eqb a' b' | _, _ => false end.
+Lemma list_eqb_eq : forall a b, list_eqb a b = true -> a = b.
+Proof. induction a as [|x a IH]; intros [|y b] H; cbn in H; try discriminate; [reflexivity|]. apply andb_prop in H. destruct H as [H1 H2]. apply Z.eqb_eq in H1. rewrite H1, (IH b H2). reflexivity. Qed.
+Definition l2l_run (wa wb:bool) (pgn:Z) (p:list Z) :=
+  let a := node0 wa 22 5000 5 in let b := node0 wb 50 777 5 in
+  let '(na, ev, ok) := send_msg (rn a) (tpm pgn 50 p) 0 in
+  let '(a', b', dl, drained) := link gf_none 200 (with_rn a na) b [] (flat_map as_frame ev) [] in
+  (ok, drained, dl, d_tp_msg (get_dev (rn a') 0)).
+Definition l2l_ok (wa wb:bool) (pgn:Z) (n:nat) : bool :=
+  let '(ok, drained, dl, pend) := l2l_run wa wb pgn (pay n) in
+  ok && drained && match pend with None => true | Some _ => false end &&
+  match dl with
+  | [x] => (m_pri x =? 7) && (m_pgn x =? pgn) && (m_src x =? 22) && (m_dst x =? 50) && m_tp x && list_eqb (m_data x) (pay n)
+  | _ => false
+  end.
+Theorem tp_lib_to_lib_partial : forall n, (9 <= n <= 223)%nat ->
+  let '(ok, drained, dl, pend) := l2l_run true false 130816 (pay n) in
+  ok = true /\ drained = true /\ pend = None /\
+  dl = [{| m_pri := 7; m_pgn := 130816; m_src := 22; m_dst := 50; m_data := pay n; m_tp := true |}].
+Proof.
+  assert (A: forallb (l2l_ok true false 130816) (seq 9 215) = true) by (vm_compute; reflexivity).
+  intros n Hn. rewrite forallb_forall in A. specialize (A n ltac:(apply in_seq; lia)).
+  unfold l2l_ok in A. destruct (l2l_run true false 130816 (pay n)) as [[[ok drained] dl] pend].
+  destruct ok; [|discriminate]. destruct drained; [|discriminate]. destruct pend; [discriminate|]. cbn [andb] in A.
+  destruct dl as [|x [|y dl]]; try discriminate.
+  repeat (apply andb_prop in A; destruct A as [A ?]).
+  repeat split. destruct x as [pri pgn src dst dat tp]. cbn [m_pri m_pgn m_src m_dst m_tp m_data] in *.
+  apply Z.eqb_eq in A. repeat match goal with H: (_ =? _) = true |- _ => apply Z.eqb_eq in H end.
+  match goal with H: list_eqb _ _ = true |- _ => apply list_eqb_eq in H end. subst. reflexivity.
+Qed.
+Print Assumptions tp_lib_to_lib_partial.
